@@ -58,6 +58,7 @@ struct CounterSlot { char name[56]; uint64_t val; };
 struct WorkerSlot {
   volatile int64_t inflight;      // run index being executed, -1 if none
   volatile int64_t started_ms;    // wall clock at start of that run (watchdog only; never seen by runs)
+  volatile int64_t started_cpu_ms; // the worker's CPU time at start of that run (watchdog only)
   volatile int64_t done;          // runs completed
   char note[NOTE_LEN];            // free-form note written by the harness / signal handler
   CounterSlot counters[MAX_COUNTERS];
@@ -111,6 +112,20 @@ struct Harness {
 };
 
 static inline int64_t now_ms() { struct timespec ts; clock_gettime(CLOCK_MONOTONIC, &ts); return ts.tv_sec * 1000LL + ts.tv_nsec / 1000000; }
+
+// CPU time (user + system) consumed so far by a process, in ms; -1 if unknown.  The watchdog measures a run by the CPU it
+// burns, not by wall time, so that a loaded machine cannot turn a slow run into a "hang" (wall time is a 10x last resort).
+static inline int64_t proc_cpu_ms(pid_t pid) {
+  char path[64], buf[1024]; snprintf(path, sizeof path, "/proc/%d/stat", (int) pid);
+  int fd = open(path, O_RDONLY); if (fd < 0) return -1;
+  ssize_t n = read(fd, buf, sizeof buf - 1); close(fd); if (n <= 0) return -1; buf[n] = 0;
+  const char *q = strrchr(buf, ')'); if (!q) return -1;
+  unsigned long ut = 0, st = 0;
+  if (sscanf(q + 1, " %*c %*d %*d %*d %*d %*d %*u %*u %*u %*u %*u %lu %lu", &ut, &st) != 2) return -1;
+  static long tck = sysconf(_SC_CLK_TCK);
+  return (int64_t) ((ut + st) * 1000 / (unsigned long) (tck > 0 ? tck : 100));
+}
+static inline int64_t self_cpu_ms() { struct timespec ts; clock_gettime(CLOCK_PROCESS_CPUTIME_ID, &ts); return ts.tv_sec * 1000LL + ts.tv_nsec / 1000000; }
 
 static WorkerSlot *g_slot = nullptr;  // for signal handlers of harnesses
 static RunCtx *g_ctx = nullptr;
@@ -194,7 +209,7 @@ static inline ChildEnd run_isolated(Harness &h, const Json &plan, int timeout_s,
   }
   close(pfd[1]);
   std::string got; char buf[4096];
-  int64_t t0 = now_ms(); bool hang = false; int st = 0;
+  int64_t t0 = now_ms(); bool hang = false; int st = 0; unsigned polls = 0;
   // non-blocking wait with timeout
   fcntl(pfd[0], F_SETFL, O_NONBLOCK);
   for (;;) {
@@ -202,7 +217,7 @@ static inline ChildEnd run_isolated(Harness &h, const Json &plan, int timeout_s,
     if (n > 0) got.append(buf, n);
     pid_t r = waitpid(pid, &st, WNOHANG);
     if (r == pid) { while ((n = read(pfd[0], buf, sizeof buf)) > 0) got.append(buf, n); break; }
-    if (now_ms() - t0 > timeout_s * 1000LL) { kill(pid, SIGKILL); waitpid(pid, &st, 0); hang = true; break; }
+    if (((++polls & 31) == 0 && proc_cpu_ms(pid) > timeout_s * 1000LL) || now_ms() - t0 > timeout_s * 10000LL) { kill(pid, SIGKILL); waitpid(pid, &st, 0); hang = true; break; }
     usleep(300);
   }
   close(pfd[0]);
@@ -235,7 +250,7 @@ static inline void worker_loop(Harness &h, Shared *sh, int wid, uint64_t seed, i
     int64_t ix = __sync_fetch_and_add(&sh->next_index, 1);
     if (ix >= count) break;
     slot->note[0] = 0;
-    slot->started_ms = now_ms();
+    slot->started_cpu_ms = self_cpu_ms(); slot->started_ms = now_ms();
     slot->inflight = ix;
     Json plan = make_plan(h, seed, ix, cfg);
     Outcome o = h.execute(plan, ctx);
@@ -293,7 +308,12 @@ static inline int mode_run(Harness &h, uint64_t seed, int64_t count, int jobs, c
       pid_t r = waitpid(pids[w], &st, WNOHANG);
       if (r == 0) {
         int64_t inf = sh->w[w].inflight;
-        if (inf >= 0 && now_ms() - sh->w[w].started_ms > hang_s * 1000LL && sh->w[w].inflight == inf) {
+        bool over = false;
+        if (inf >= 0 && now_ms() - sh->w[w].started_ms > hang_s * 1000LL) {  // candidates only: decide by CPU time, wall time as a 10x last resort
+          int64_t c0 = sh->w[w].started_cpu_ms, c1 = proc_cpu_ms(pids[w]);
+          over = (c1 >= 0 && c1 - c0 > hang_s * 1000LL) || now_ms() - sh->w[w].started_ms > hang_s * 10000LL;
+        }
+        if (over && sh->w[w].inflight == inf) {
           kill(pids[w], SIGKILL); waitpid(pids[w], &st, 0); hang = true;
         } else continue;
       }
